@@ -150,10 +150,10 @@ class DataProvider:
         if interval_min > interval_max:
             interval_min, interval_max = interval_max, interval_min
 
-        minimum = 0 if np.isinf(interval_min) else np.abs(axis - interval_min).argmin()
-        maximum = (
-            axis.size if np.isinf(interval_max) else np.abs(axis - interval_max).argmin() + 1
-        )
+        # an infinite bound reaches the (nearest) end of the axis
+        interval_min, interval_max = np.clip((interval_min, interval_max), axis.min(), axis.max())
+        minimum = np.abs(axis - interval_min).argmin()
+        maximum = np.abs(axis - interval_max).argmin() + 1
 
         return slice(minimum, maximum)
 
